@@ -288,6 +288,18 @@ def extra_stage(R, tier, rng, counter):
             R.record(f"own-initial Counter {tag}", guarded(ownc), [kl(ea), kl(ea), kl(ea2)], [kl(ea), kl(ea), kl(ea2)], n >= 2, "ownership/initial-counts",
                      py=f"init = np.arange(5, {5 + n}); a = Counter({keys}, init, mod={mod}); b = Counter({keys}, init, mod={mod}); a.count([{keys[0]}, {keys[0]}, {keys[-1]}]); b[keys]; init; a[keys]")
     if not counter:
+        # (5) a table built from ONE constant without a value dtype, then integers that no double can hold are assigned and read back
+        for keys, mod in KS:
+            n = len(keys); big = [2 ** 53 + 1, -(2 ** 62) - 1, 2 ** 62 + 3]
+            def bigassign():
+                t = HashTable(keys, 0, mod=mod); t[keys[0]] = big[0]
+                out = [val(t[keys])]
+                t[[keys[-1]]] = np.array([big[1]]); out.append(val(t[keys])); t[keys[0]] = big[2]; out.append(val(t[[keys[0]]]))
+                return out
+            e1 = [0] * n; e1[0] = big[0]; e2 = list(e1); e2[-1] = big[1]
+            if n == 1: e2 = [big[1]]
+            R.record(f"constant-table big ints HashTable({keys}, 0, mod={mod})", guarded(bigassign), [kl(e1), kl(e2), kl([big[2]])], [kl(e1), kl(e2), kl([big[2]])], n >= 2, "constant-then-assign/big-int",
+                     py=f"t = HashTable({keys}, 0, mod={mod}); t[{keys[0]}] = 2**53+1; t[keys]; t[[{keys[-1]}]] = [-(2**62)-1]; t[keys]; t[{keys[0]}] = 2**62+3; t[[{keys[0]}]]")
         # (4) membership of ONE Python int that the key dtype cannot hold (default and explicit modulus): not a member, never an error (F37)
         from npstructures.hashtable import HashSet
         for kdt in ("int8", "uint8", "int16", "uint32"):
@@ -323,6 +335,26 @@ def extra_stage(R, tier, rng, counter):
             efs = [0] * n; efs[0] += 1; efs[-1] += 1
             R.record(f"float-samples Counter {tag}", guarded(cfs), kl(efs), kl(efs), n >= 2, "count/float-samples",
                      py=f"c = Counter({keys}, mod={mod}); c.count(np.array({fs})); c[keys]")
+            # (4') the initial value given as a narrow numpy integer SCALAR: a start value, not a storage width -- 51 more occurrences than it could hold
+            for sc_t, sc in (("int8", 100), ("int16", 32760), ("uint8", 250), ("int32", 7)):
+                def cns():
+                    c = Counter(keys, getattr(np, sc_t)(sc), mod=mod); before = val(c[keys])
+                    c.count([keys[0]] * 51 + [999]); mid = val(c[keys]); c.count([keys[0]] * 51 + [keys[-1]]); return [before, mid, val(c[keys])]
+                e0 = [sc] * n; e1 = list(e0); e1[0] += 51; e2 = list(e1); e2[0] += 51; e2[-1] += 1
+                R.record(f"narrow-scalar-initial np.{sc_t}({sc}) Counter {tag}", guarded(cns), [kl(e0), kl(e1), kl(e2)], [kl(e0), kl(e1), kl(e2)], n >= 2, "count/narrow-scalar-initial",
+                         py=f"c = Counter({keys}, np.{sc_t}({sc}), mod={mod}); c[keys]; c.count([{keys[0]}]*51 + [999]); c[keys]; c.count([{keys[0]}]*51 + [{keys[-1]}]); c[keys]")
+            # (5') per-key initial counts in a non-native byte order / a strided or read-only array: later batches must still land in the counter
+            base = [3 + 2 * i for i in range(n)]
+            for how, mkinit in (("big-endian i8", lambda: np.array(base, dtype=">i8")), ("big-endian i4", lambda: np.array(base, dtype=">i4")),
+                                ("strided", lambda: np.repeat(np.array(base), 2)[::2]), ("read-only", lambda: (lambda a: (a.setflags(write=False), a)[1])(np.array(base))),
+                                ("frombuffer", lambda: np.frombuffer(np.array(base, dtype=">i8").tobytes(), dtype=">i8"))):
+                def cbe():
+                    c = Counter(keys, mkinit(), mod=mod); before = val(c[keys])
+                    c.count([keys[0], 999, keys[-1]]); mid = val(c[keys]); c.count([keys[0], keys[0]]); return [before, mid, val(c[keys])]
+                e1 = list(base); e1[0] += 1; e1[-1] += 1; e2 = list(e1); e2[0] += 2
+                if n == 1: e1 = [base[0] + 2]; e2 = [base[0] + 4]
+                R.record(f"initial-array {how} Counter {tag}", guarded(cbe), [kl(base), kl(e1), kl(e2)], [kl(base), kl(e1), kl(e2)], n >= 2, "count/initial-array-layout",
+                         py=f"c = Counter({keys}, <{how} array of {base}>, mod={mod}); c[keys]; c.count([{keys[0]}, 999, {keys[-1]}]); c[keys]; c.count([{keys[0]}, {keys[0]}]); c[keys]")
         # signed samples of the key type's own width against unsigned keys: a negative sample is never a key
         for kdt, sdt in (("uint8", "int8"), ("uint16", "int16"), ("uint32", "int32"), ("uint64", "int64")):
             bits = np.iinfo(kdt).bits
@@ -399,3 +431,14 @@ def big_stage(R, tier, rng, counter):
                             tot.update(x for x in b if x in keyset); e.append(kl([base[k] + tot[k] for k in keys]))
                         R.record(f"big-count {tag} init={init_kind} batches={[len(b) for b in order]}", guarded(cnt), e, e, True, "big/count-batches",
                                  py=f"keys={keys!r}; init={init!r}; batches={[list(b) for b in order]!r}; c=Counter(keys, init, mod={mod}); for b in batches: c.count(b); c[keys]")
+    if counter:
+        # one bucket for everything (mod=1) and batches whose gathered bucket cells run into the millions, of sizes that no round part count divides
+        for nk, sizes in ((2100, (2001, 2503)), (1031, (4099,))):
+            keys = rng.sample(range(-5000, 20000), nk); keyset = set(keys); outs = [x for x in range(20001, 20040)]
+            for nsamp in sizes:
+                batch = [rng.choice(keys) for _ in range(nsamp - 7)] + [keys[-1]] * 4 + [outs[0], keys[0], keys[0]]
+                tot = collections.Counter(x for x in batch if x in keyset); e = kl([tot[k] for k in keys])
+                def one():
+                    c = Counter(A(keys), mod=1); c.count(A(batch)); return val(c[A(keys)])
+                R.record(f"one-bucket big batch nk={nk} samples={nsamp}", guarded(one), e, e, True, "big/one-bucket-batch",
+                         py=f"keys={keys!r}; batch={batch!r}; c=Counter(keys, mod=1); c.count(batch); c[keys]")
